@@ -313,9 +313,12 @@ func (v *Vue) resolveArgument(ctx VueContext, arg string) any {
 		return i
 	}
 
-	// Try to parse as float
-	if f, err := strconv.ParseFloat(arg, 64); err == nil {
-		return f
+	// Try to parse as float. strconv.ParseFloat also reads inf, infinity and nan in any
+	// letter case, which are variable names: a number starts with a digit, a sign or a dot
+	if len(arg) > 0 && (arg[0] >= '0' && arg[0] <= '9' || arg[0] == '+' || arg[0] == '-' || arg[0] == '.') {
+		if f, err := strconv.ParseFloat(arg, 64); err == nil {
+			return f
+		}
 	}
 
 	// The bool literals. strconv.ParseBool would also take t, f, T, F, 1 and 0,
